@@ -365,6 +365,38 @@ fn search() -> Value {
         }
         None
     });
+    // Phase 2: one complete version whose names exercise the ordering (siblings that extend one another,
+    // bytes below '/', multi-byte names), listed under every choice of subtree.
+    let res = res.or_else(|| {
+        rt.block_on(async {
+            let mut paths: Vec<String> = [
+                "/a", "/a.b", "/a-b", "/ab", "/a b", "/é", "/éa", "/z", "/a/b", "/a/b/c", "/a/b/deep/f", "/a.b/x",
+                "/a.b/sub/y", "/a-b/y", "/ab/q", "/é/ü", "/éa/w", "/a b/k",
+            ]
+            .iter()
+            .map(|s| s.to_string())
+            .collect();
+            paths.sort_by(|x, y| super::w_apath::doc_cmp(x, y));
+            let mut subtrees: Vec<String> = paths.clone();
+            subtrees.extend(["/", "/nope", "/a.", "/a/b/d", "/é/"].iter().map(|s| s.to_string()).filter(|s| super::w_apath::valid(s)));
+            let st_refs: Vec<&str> = subtrees.iter().map(|s| s.as_str()).collect();
+            for split in [paths.len(), 5, 9] {
+                let mut hunks = BTreeMap::new();
+                hunks.insert(0u32, Hunk::Entries(paths[..split.min(paths.len())].to_vec()));
+                if split < paths.len() {
+                    hunks.insert(1u32, Hunk::Entries(paths[split..].to_vec()));
+                }
+                let a: ArchDesc = vec![Some(BandDesc { closed: true, broken_head: false, hunks })];
+                tried += 1;
+                match run_one(&a, &[0], &st_refs).await {
+                    Ok(Some(v)) => return Some(v),
+                    Ok(None) => {}
+                    Err(e) => return Some(json!({"found": false, "kind": "stitch_listing", "error": e})),
+                }
+            }
+            None
+        })
+    });
     res.unwrap_or_else(|| json!({"found": false, "kind": "stitch_listing", "tried_archives": tried,
         "explain": "no archive of 3 versions (each absent / unopenable / complete / incomplete, 9 hunk layouts incl. gaps, unreadable and empty hunks) lists differently from the spec"}))
 }
